@@ -339,6 +339,37 @@ Proof.
     + cbn [snd]. apply IH.
 Qed.
 
+(* ---- a consumer that stops polling ------------------------------------------------------------------- *)
+
+Lemma take_outputs : forall tr n, outputs (take_upto n tr) = firstn n (outputs tr).
+Proof.
+  induction tr as [|[t e] tr IH]; intros n; [now destruct n|].
+  cbn [take_upto]. unfold outputs, events in *. cbn [map snd filter].
+  destruct n as [|n]; [now destruct (is_output e)|].
+  destruct (is_output e) eqn:E; cbn [map snd filter]; rewrite E.
+  - cbn [firstn]. f_equal. apply IH.
+  - apply IH.
+Qed.
+
+Lemma take_prefix : forall tr n, Prefix (take_upto n tr) tr.
+Proof.
+  induction tr as [|[t e] tr IH]; intros n; [exists []; reflexivity|].
+  cbn [take_upto]. destruct n as [|n]; [eexists; reflexivity|].
+  destruct (is_output e).
+  - destruct (IH n) as [rest E]. exists rest. cbn [app]. now rewrite <- E.
+  - destruct (IH (S n)) as [rest E]. exists rest. cbn [app]. now rewrite <- E.
+Qed.
+
+Lemma consumer_take_prefix : forall tr n, Prefix (consumer_take n tr) tr.
+Proof.
+  intros tr [|n]; [|apply take_prefix].
+  exists (skipn 1 tr). cbn [consumer_take]. now rewrite firstn_skipn.
+Qed.
+
+Lemma consumer_take_outputs : forall t rest n,
+  outputs (consumer_take n ((t, TAttempt) :: rest)) = firstn n (outputs ((t, TAttempt) :: rest)).
+Proof. intros t rest [|n]; [reflexivity|apply take_outputs]. Qed.
+
 (* ---- merge (untimed) ---------------------------------------------------------------------------------- *)
 
 Lemma interleave_subseq : forall A (l r o : list A),
